@@ -48,6 +48,7 @@ pub fn run(ctx: &Ctx, rep: &mut Reporter) {
                 match (&rc, &rp) {
                     (Ok(c), Ok(p)) => {
                         rep.count("files_both_readers_accept", 1);
+                        rep.count("files_accepted_by_both_or_rejected_with_wrong_version", 1);
                         diff_remap(
                             p,
                             c,
@@ -70,7 +71,11 @@ pub fn run(ctx: &Ctx, rep: &mut Reporter) {
                         for (who, r) in [("current reader", a.as_ref().err()), ("pinned reader", b.as_ref().err())] {
                             match r {
                                 None => {}
-                                Some(Ok(ErrKind::WrongVersion)) => rep.count("rejected_with_wrong_version", 1),
+                                Some(Ok(ErrKind::WrongVersion)) => {
+                                    rep.count("rejected_with_wrong_version", 1);
+                                    rep.count("files_accepted_by_both_or_rejected_with_wrong_version", 1);
+                                    rep.distinct(pgvcore::util::Fp::new().bytes(&bytes).str(who).get());
+                                }
                                 Some(e) => {
                                     let mut d = mk();
                                     d.set("reader", Json::s(who));
